@@ -33,7 +33,9 @@ Queries == << <<"cholesky", "lower", "LLt", TRUE>>, <<"cholesky", "upper", "RtR"
               <<"eigh", "none", "eig", TRUE>>, <<"linalg_eigh", "none", "eig", TRUE>>, <<"eigvalsh", "none", "eigvals", TRUE>>,
               <<"linalg_eigvalsh", "none", "eigvals", TRUE>>, <<"svd", "none", "svd", TRUE>>, <<"linalg_svd", "none", "svd", TRUE>>,
               <<"diagonalization", "none", "eig", TRUE>>, <<"diagonalization", "symeig", "eig", TRUE>>, <<"diagonalization", "lanczos", "eig", FALSE>>,
-              <<"sample", "k1", "cov", TRUE>>, <<"sample", "k2", "cov", TRUE>>, <<"sample_ciq", "k1", "cov", FALSE>> >>
+              <<"sample", "k1", "cov", TRUE>>, <<"sample", "k2", "cov", TRUE>>, <<"sample_ciq", "k1", "cov", FALSE>>, <<"sample_ciq", "k2", "cov", FALSE>>,
+              \* sampling from an object whose diagonalization has been queried before (the sampler then prefers the cached diagonalization)
+              <<"sample_after_diag", "k1", "cov", TRUE>>, <<"sample_after_diag", "k2", "cov", TRUE>> >>
 \* thresholds: max_cholesky_size in {0, default} (sizes on both sides of it), max_root_decomposition_size in {2, default},
 \* fast covar_root_decomposition on / off
 Thresholds == { [max_chol |-> mc, max_root |-> mr, fast_root |-> fr] : mc \in {0, 800}, mr \in {2, 100}, fr \in BOOLEAN }
@@ -43,6 +45,7 @@ ThrId(t) == (IF t.max_chol = 0 THEN 1 ELSE 0) + (IF t.max_root = 2 THEN 2 ELSE 0
 ExactUnder(q, t) ==
   /\ q[4]
   /\ ~(t.max_chol = 0 /\ q[2] = "none" /\ q[1] \in {"root_decomposition", "root_inv_decomposition", "diagonalization", "sample"})
+  /\ ~(t.max_chol = 0 /\ q[1] = "sample_after_diag")
   \* methods that post-process a default-method decomposition inherit its (Lanczos) nature above max_cholesky_size
   /\ ~(t.max_chol = 0 /\ q[2] \in {"diagonalization", "pinverse"})
   /\ ~(q[2] = "pivoted_cholesky" /\ t.max_root < N)
@@ -58,7 +61,7 @@ Init ==
        /\ (sd # 1 => Cls[ci] \in ScaledCls /\ Queries[qi][3] # "cov" /\ t.max_root = 100)
        /\ (Tier = "quick" => IF sd = 1 THEN ((ci + qi + ThrId(t) + bi) % 3 = 0)
                              ELSE (Queries[qi][2] = "pivoted_cholesky" \/ (ci + qi + ThrId(t) + bi) % 5 = 0))
-       /\ (Queries[qi][1] = "sample_ciq" => bi = 1 /\ t.max_root = 100)
+       /\ (Queries[qi][1] = "sample_ciq" => t.max_root = 100 /\ t.max_chol = 800 /\ ~t.fast_root)
        /\ desc = [cls |-> Cls[ci], b |-> Batches[bi], query |-> Queries[qi][1], method |-> Queries[qi][2], relation |-> Queries[qi][3],
                   exact |-> ExactUnder(Queries[qi], t), thr |-> t, id |-> (((ci * 4 + bi) * 32 + qi) * 8 + ThrId(t)) * 2 + (IF sd = 1 THEN 0 ELSE 1),
                   sden |-> sd,
